@@ -462,17 +462,9 @@ Definition sm_merge_phase (s : sm) (u v : N) (lo hi : nat) (u_nodes v_nodes : li
       ROk (mkSm preds2 order' idx2 len2 uf6 enemies2, true)
   end.
 
-(* SubgraphMerge::try_merge.  PRECONDITION: u0, v0 are keys. *)
-Definition sm_try_merge (s : sm) (u0 v0 : N) : res (sm * bool) :=
-  (* 0. representatives, short circuits *)
-  let '(uf1, u1) := uf_find (sm_uf s) u0 in
-  let '(uf2, v1) := uf_find uf1 v0 in
-  if N.eqb u1 v1 then ROk (with_uf s uf2, true) else
-  if match alookup u1 (sm_enemies s) with Some es => memN v1 es | None => false end
-  then ROk (with_uf s uf2, false) else
-  iu <- aget u1 (sm_idx s) ;;
-  iv <- aget v1 (sm_idx s) ;;
-  let '(u, v) := if Nat.ltb iu iv then (u1, v1) else (v1, u1) in
+(* try_merge once `u` is the representative that comes first in the order: slices, window,
+   step 1 (cycle check), then steps 2-3 *)
+Definition sm_try_merge_ordered (s : sm) (u v : N) (uf2 : links) : res (sm * bool) :=
   u_idx <- aget u (sm_idx s) ;; u_len <- aget u (sm_len s) ;;
   v_idx <- aget v (sm_idx s) ;; v_len <- aget v (sm_len s) ;;
   let order := sm_order s in
@@ -486,6 +478,19 @@ Definition sm_try_merge (s : sm) (u0 v0 : N) : res (sm * bool) :=
   '(found, uf3) <- cyc_loop s u v lo hi (S (length (sm_idx s))) [v] [v] uf2 ;;
   if (found : bool) then ROk (with_uf s uf3, false) else
   sm_merge_phase s u v lo hi u_nodes v_nodes uf3.
+
+(* SubgraphMerge::try_merge.  PRECONDITION: u0, v0 are keys. *)
+Definition sm_try_merge (s : sm) (u0 v0 : N) : res (sm * bool) :=
+  (* 0. representatives, short circuits *)
+  let '(uf1, u1) := uf_find (sm_uf s) u0 in
+  let '(uf2, v1) := uf_find uf1 v0 in
+  if N.eqb u1 v1 then ROk (with_uf s uf2, true) else
+  if match alookup u1 (sm_enemies s) with Some es => memN v1 es | None => false end
+  then ROk (with_uf s uf2, false) else
+  iu <- aget u1 (sm_idx s) ;;
+  iv <- aget v1 (sm_idx s) ;;
+  let '(u, v) := if Nat.ltb iu iv then (u1, v1) else (v1, u1) in
+  sm_try_merge_ordered s u v uf2.
 
 (* SubgraphMerge::find / same_set *)
 Definition sm_find (s : sm) (k : N) : sm * N :=
